@@ -38,6 +38,10 @@ def run(ctx):
     ctx.rule("C14.e", "all-or-nothing: no error exit of Listing::renum is reachable after the "
              "single store to self.source; Runtime::renum converts its three operands and checks "
              "its two guards before calling Listing::renum")
+    ctx.rule("C14.g", "every stored line goes through Line::renum: the map that becomes the new "
+             "listing starts empty, is filled only by inserts of Line::renum results, and the "
+             "loop feeding Line::renum iterates the whole listing (lines()/values()/iter(), not a "
+             "sub-range): a kept line that references a renumbered line must be rewritten too")
     ctx.rule("C14.f", "lines below old-start keep their order: the `old_end >= new_start` "
              "rejection exists")
     rule_a(ctx, cr)
@@ -228,6 +232,7 @@ def rule_def(ctx, cr):
                   "no error exit is reachable after the listing was replaced",
                   "error exits %s are reachable after self.source was replaced: RENUM can fail "
                   "half-done" % late)
+    rule_g(ctx, cr, f)
     r = cr.need_fn("mach::runtime::Runtime::renum")
     ctx.touch(r)
     rc = r.calls_to("mach::listing::Listing::renum")
@@ -254,3 +259,37 @@ def rule_def(ctx, cr):
     ctx.check(okf, "C14.f", "Listing::renum/order-guard", f.span,
               "`old_end >= new_start` leads to an error",
               "the guard that keeps unrenumbered lines below the new numbers is gone or weakened")
+
+
+def rule_g(ctx, cr, f):
+    stores = f.field_stores("source")
+    if len(stores) != 1:
+        return
+    b, st, v = stores[0]
+    # the local holding the new map: first argument chain of Arc::from / Arc::new
+    names = f.back_slice_calls(st["rv"]["op"]) if st["rv"]["k"] == "use" else set()
+    ctors = [n for n in names if re.search(r"BTreeMap.*(default|new)$|Default::default$", n)]
+    other = sorted(n.rsplit("::", 2)[-2] + "::" + n.rsplit("::", 1)[-1] for n in names
+                   if re.search(r"(collect|from_iter|clone|range|extend|append|split_off)$", n))
+    ctx.check(bool(ctors) and not other, "C14.g", "Listing::renum/new-map-starts-empty", st["span"],
+              "the new listing is built from an empty map",
+              "the new listing is seeded from %s instead of an empty map: those lines bypass "
+              "Line::renum and keep stale references" % other)
+    ins = [c for c in f.calls_matching(r"BTreeMap::<K, V, A>::insert$")]
+    rn = f.calls_to("lang::line::Line::renum")
+    ctx.check(len(rn) == 1, "C14.g", "Listing::renum/one-renum-call", f.span,
+              "one call site of Line::renum")
+    good = [c for c in ins if any("Line::renum" in n for n in f.back_slice_calls(c.args[2]))]
+    ctx.check(bool(good) and len(good) == len(ins), "C14.g", "Listing::renum/inserts-renumbered",
+              f.span, "every insert stores a Line::renum result (%d insert site(s))" % len(ins),
+              "%d of %d inserts into the new listing store a line that did not go through "
+              "Line::renum" % (len(ins) - len(good), len(ins)))
+    if rn:
+        names = f.back_slice_calls(rn[0].args[0])
+        whole = any(re.search(r"(Listing::lines|BTreeMap::<K, V, A>::(values|iter))$", n)
+                    for n in names)
+        part = sorted(n for n in names if re.search(r"::(range|skip|skip_while|take|filter)$", n))
+        ctx.check(whole and not part, "C14.g", "Listing::renum/iterates-whole-listing", rn[0].span,
+                  "Line::renum is applied to every line of the listing",
+                  "Line::renum is applied to a sub-range of the listing only (%s): lines outside "
+                  "it keep references to old numbers" % (part or "no whole-listing iterator"))
